@@ -287,6 +287,10 @@ func (x *Exec) effectOfModifiesTarget(callee *ssa.Function, fc *FuncContract, m 
 				eff.elemTypes[heapTypeKey(et)] = et
 				return
 			}
+			if _, isMap := types.Unalias(a.Type()).Underlying().(*types.Map); isMap {
+				eff.maps[heapTypeKey(a.Type())] = a.Type()
+				return
+			}
 			addWrite(a, true)
 			return
 		}
@@ -500,6 +504,19 @@ func (x *Exec) resolveLocal(fr *Frame, st *State, b *ssa.BasicBlock, name string
 			}
 		}
 		sfail("\\i used in a loop that is not a range-over-slice loop")
+	}
+	if name == "\\o" {
+		// the number of completed iterations of the nearest enclosing range-over-slice loop
+		for blk := b.Idom(); blk != nil; blk = blk.Idom() {
+			for _, in := range blk.Instrs {
+				if phi, ok := in.(*ssa.Phi); ok && phi.Comment == "rangeindex" {
+					if v, ok := fr.regs[phi]; ok {
+						return &Val{K: VInt, T: Add(v.T, Num(1))}
+					}
+				}
+			}
+		}
+		sfail("\\o used in a loop that is not nested in a range-over-slice loop")
 	}
 	for _, in := range b.Instrs {
 		if phi, ok := in.(*ssa.Phi); ok && phi.Comment == name {
